@@ -369,7 +369,12 @@ class PVLParser(object):
                                 agg, tokens
                             )
                             if not keep_parsing:
-                                raise ve
+                                # The tokens ran out inside the open block.
+                                raise ParseError(
+                                    "Ran out of tokens before the End-"
+                                    f'Aggregation-Statement of "{begin} = '
+                                    f'{block_name}" was complete.'
+                                )
                         except (LexerError, ParseError):
                             raise
                         except Exception:
